@@ -7,7 +7,8 @@ SA = "acnportal.algorithms.sorted_algorithms.SortedSchedulingAlgo."
 SEARCH = [SA + "discrete_max_feasible_rate", SA + "max_feasible_rate", SA + "max_feasible_rate.<locals>.bisection"]
 IFC = "acnportal.acnsim.interface.Interface."
 IIC = "acnportal.acnsim.interface.InfrastructureInfo."
-INFRA = [IFC + "_infrastructure_info", IFC + "infrastructure_info", IIC + "__init__", IIC + "get_station_index"]
+INFRA = [IFC + "_infrastructure_info", IFC + "infrastructure_info", IIC + "__init__", IIC + "get_station_index",
+         "acnportal.acnsim.network.charging_network.ChargingNetwork._update_info_store", "acnportal.acnsim.network.charging_network.ChargingNetwork.register_evse"]
 ACCESSORS = [IFC + "max_pilot_signal", IFC + "min_pilot_signal", IFC + "evse_voltage", IFC + "evse_phase", IFC + "remaining_amp_periods"]
 OBSERVE = ["acnportal.acnsim.network.charging_network.ChargingNetwork.active_evs", "acnportal.acnsim.simulator.Simulator.get_active_evs",
            "acnportal.acnsim.simulator.Simulator.index_of_evse", IFC + "_active_sessions", IFC + "active_sessions", IFC + "last_actual_charging_rate",
@@ -307,8 +308,9 @@ PLAN = {
         note="FEAS is the value of utils.infrastructure_constraints_feasible under default arguments (that it equals the phasor definition is C06, proved); "
              "termination of the bisection is not proved (Archimedean property); schedule() requires what Interface.active_sessions delivers (one live "
              "SessionInfo per station, first minimum rate <= 0 <= first maximum rate) and what the EVSE classes advertise through the network's cache "
-             "(non-negative max / min pilots, positive voltages and period, strictly increasing level lists containing 0 - C13; the cache-filling "
-             "_update_info_store itself is not under contract); the sort function and a custom estimator are assumed contracts (user code)",
+             "(non-negative max / min pilots, positive voltages and period, strictly increasing level lists containing 0 - C13); the cache-filling "
+             "_update_info_store IS under contract (entry i of every cached description is what the i-th registered station's own property returns; "
+             "dynamic dispatch on the station named by uninterpreted functions of the EVSE object); the sort function and a custom estimator are assumed contracts (user code)",
         explanation="proved: search procedures, greedy and round-robin allocation (feasible, bounds, levels, zeros), preprocessing steps, and the whole plain-greedy / "
                     "plain round-robin schedule() compositions; bounded: estimator / uninterrupted configurations as a whole, simulations (rt.algomon, rt.simcheck)",
         technique="contract-based deductive verification of the search procedures, the allocation loops, the preprocessing steps and the schedule() composition (loop invariants, step contracts, recursive contract, pyvc/z3) + run-time contract monitor (bounded) for the remaining configurations",
@@ -341,7 +343,8 @@ PLAN = {
     ),
     "C10": dict(
         level="other",
-        functions=[SIM + "_update_schedules", NET + "station_ids", NET + "add_constraint", CURR + "__add__", NET + "constraint_current"] + SORTFNS,
+        functions=[SIM + "_update_schedules", NET + "station_ids", NET + "add_constraint", CURR + "__add__", NET + "constraint_current",
+                   "acnportal.acnsim.network.sites.auto_acn.simple_acn"] + SORTFNS,
         bounded=[dict(module="rt.drivers", fn="pair_monitor", label="paired runs: same inputs, permuted stations / constraints / sessions, shifted events, fresh interpreter")],
         text="The property relates PAIRS of whole runs (2-safety); no single-function contract states it. What contracts can and do decide are the "
              "order-independence of the individual steps, as id-keyed FUNCTIONAL postconditions - PROVED (no bound): Simulator._update_schedules writes, "
@@ -362,7 +365,8 @@ PLAN = {
     "C12": dict(
         level="other",
         functions=[CURR + "__add__", CURR + "__sub__", CURR + "__mul__", CURR + "__init__@list", NET + "add_constraint", NET + "remove_constraint",
-                   NET + "update_constraint", NET + "register_evse", NET + "constraint_current", NET + "station_ids"],
+                   NET + "update_constraint", NET + "register_evse", NET + "constraint_current", NET + "station_ids", NET + "__init__", NET + "_update_info_store",
+                   "acnportal.acnsim.network.sites.auto_acn.simple_acn"],
         bounded=[dict(module="rt.netmon", fn="constraint_monitor", label="add/remove/update/register sequences with algebra-built Currents against the row model")],
         text="PROVED (all Currents over arbitrary station subsets, all tables, all registration orders; by induction over calls, no bound): the Current "
              "algebra - a + b, a - b, c * a (and the reflected forms, which are the same methods) return a NEW Current whose coefficient at every station "
@@ -376,7 +380,12 @@ PLAN = {
              "removal followed by that addition (the updated constraint becomes the last row); register_evse appends the station to the registration "
              "order with its voltage and phase angle and raises EVSERegistrationError exactly when constraints exist; constraint_current returns the "
              "rows in network order and the requested periods in the order given (see C06). The alignment invariant (M names, M limits, M x N matrix) is "
-             "preserved by all of them. (constraint_current for a SUBSET of constraint names: the order-preserving selection in network order, proved - see C06 / C18.) BOUNDED: duplicate-name "
+             "preserved by all of them. (constraint_current for a SUBSET of constraint names: the order-preserving selection in network order, proved - see C06 / C18.) "
+             "ChargingNetwork.__init__ builds an empty, aligned table with a live registry; _update_info_store (loop invariant) and register_evse keep the "
+             "descriptions cached for schedulers truthful - entry i is what the i-th registered station advertises, the index dictionary inverts the "
+             "registration order; sites.simple_acn registers the stations IN THE ORDER GIVEN (loop invariant; a re-ordering such as list(set(ids)) - "
+             "iteration over a set is an unspecified enumeration - fails it), each at the given voltage and phase 0, with one aggregate constraint of "
+             "coefficient 1 per station and limit cap / voltage x 1000. BOUNDED: duplicate-name "
              "suffixing, Current construction from a str / dict / Series, long mixed sequences.",
         note="pandas per A-LIB (pyvc/pdlib.py): a Series is a finite mapping label -> number, Series.add(fill_value=0) is the union-sum, scalar multiple; a "
              "DataFrame is (row labels, column labels, cell and NaN functions of (row position, column label)) with DataFrame(matrix, columns, index), "
@@ -520,7 +529,8 @@ PLAN = {
     "C19": dict(
         level="other",
         functions=[SN + "plugin", SN + "unplug", SN + "available_evses", SN + "post_charging_update",
-                   EQ + "add_event", EQ + "get_event", EQ + "get_current_events", EQ + "empty", EVT + "Event.__lt__"],
+                   EQ + "add_event", EQ + "get_event", EQ + "get_current_events", EQ + "empty", EVT + "Event.__lt__",
+                   "acnportal.acnsim.network.sites.auto_acn.simple_acn"],
         bounded=[dict(module="rt.fnmon", fn="stochastic_monitor", label="operation sequences on StochasticNetwork against the FCFS model"),
                  dict(module="rt.drivers", fn="stochastic_sim_monitor", label="whole simulations on a StochasticNetwork")],
         text="PROVED (all registries, occupancies, waiting queues, every random choice of a free station; by induction over calls, no bound): the "
@@ -537,7 +547,8 @@ PLAN = {
              "seed and the early-departure accounting over whole simulations.",
         note="random.choice(seq) is an arbitrary element of seq (A-LIB, every seed covered); OrderedDict operations (item assignment, move_to_end, "
              "popitem(last=False), del) per A-LIB with well-formedness of a dict value as a type invariant; precondition of plugin: the arriving EV is not "
-             "already in the network (a session is plugged in once - C01); the constructor is not under contract (numpy info store)",
+             "already in the network (a session is plugged in once - C01); reproducibility: sites.simple_acn (the factory the stochastic examples build their "
+             "network with) registers stations in the order given - proved; across interpreters nothing else in scope iterates a hash-ordered container",
         explanation="proved: representation invariant preserved + functional postconditions of plugin / unplug / available_evses / post_charging_update (pyvc); "
                     "bounded: whole-run clauses (rt.fnmon.stochastic_monitor, rt.drivers.stochastic_sim_monitor)",
         technique="contract-based deductive verification of a data-structure invariant over an ordered-map abstraction (pyvc/z3) + run-time contract monitor (bounded) for whole runs",
